@@ -218,7 +218,8 @@ The three table facts are kernel-evaluated over the regenerated `keyNames` / `st
 theorem prefix_facts : ((List.range 256).all fun m =>
     let S := splitOn 43 (modPrefix m stringMods)
     (S.getLastD [1] == []) && (parseMods asciiUni S.dropLast == m &&& 63) && S.all asciiB &&
-    (stripLocks (m &&& 63) == stripLocks m)) = true := by decide +kernel
+    (stripLocks (m &&& 63) == stripLocks m) &&
+    ((modPrefix m stringMods == []) || !S.dropLast.isEmpty)) = true := by decide +kernel
 
 /-- Every name of `keyNames` is ASCII, has no '+', at least two runes, and resolves (first match
     under case folding) to the key it is the first name of. -/
@@ -240,7 +241,7 @@ theorem self_match_named (u : Uni) (hu : AsciiAgree u) (k : Key) (e : Int × Str
   obtain ⟨⟨⟨⟨⟨_, hascii⟩, hplus⟩, hlen⟩, hfind⟩, hbranch⟩ := nf
   have pf := List.all_eq_true.mp prefix_facts k.mods (List.mem_range.mpr hm)
   simp only [Bool.and_eq_true, beq_iff_eq] at pf
-  obtain ⟨⟨⟨hlast, hmask⟩, hSascii⟩, hstrip⟩ := pf
+  obtain ⟨⟨⟨⟨hlast, hmask⟩, hSascii⟩, hstrip⟩, _⟩ := pf
   have hbranch' : k.keycode > maxRune ∨ k.keycode ∈ [KeyTab, KeySpace, KeyEsc, KeyBackspace, KeyEnter] := by
     rcases hbranch with h | h
     · exact Or.inl h
@@ -273,22 +274,28 @@ theorem self_match_named (u : Uni) (hu : AsciiAgree u) (k : Key) (e : Int × Str
   rw [matches_iff]
   exact Or.inl ⟨rfl, hstrip⟩
 
+/-- Every unnamed character key above space: any mask < 256, any non-release event, any text and
+    codes, any `Uni` agreeing with Go on ASCII — including `+` and Caps Lock with or without text. -/
 theorem self_match_char (u : Uni) (hu : AsciiAgree u) (k : Key)
-    (hkc : 32 < k.keycode ∧ k.keycode ≤ maxRune ∧ k.keycode ≠ 127)
-    (hm : k.mods < 256) (hev : k.event ≠ EventRelease)
-    (ch : Int) (hch : ch = if k.mods &&& ModCapsLock ≠ 0 then u.toUpper k.keycode else k.keycode)
-    (hvalid : validRune ch = true) (hplus : ch ≠ 43)
-    (htext : ch ≠ k.keycode → k.text = [ch]) :
+    (hkc : 32 < k.keycode ∧ k.keycode ≠ 127 ∧ validRune k.keycode = true)
+    (hm : k.mods < 256) (hev : k.event ≠ EventRelease) :
     matchString u k (keyString u k) = true := by
-  obtain ⟨h32, hmax, h127⟩ := hkc
-  have hmax' : k.keycode ≤ 1114111 := hmax
+  obtain ⟨h32, h127, hvk⟩ := hkc
+  have hmr : maxRune = 1114111 := rfl
+  have hmax : k.keycode ≤ maxRune := by
+    simp only [validRune, Bool.and_eq_true, decide_eq_true_eq] at hvk; exact hvk.1.2
   have hun : ∀ e ∈ keyNames, e.1 ≠ k.keycode := by
     intro e he heq
     have := List.all_eq_true.mp names_not_chars e he
     simp only [Bool.or_eq_true, decide_eq_true_eq, heq] at this
-    have hmr : maxRune = 1114111 := rfl
     omega
-  have hks : keyString u k = modPrefix k.mods stringMods ++ [ch] := by
+  -- the rune `String()` writes
+  let ch : Int := if k.mods &&& ModCapsLock ≠ 0 ∧ k.text = strOfRune (u.toUpper k.keycode) then u.toUpper k.keycode else k.keycode
+  obtain ⟨w, hw, hwv⟩ : ∃ w, strOfRune ch = [w] ∧ validRune w = true := by
+    unfold strOfRune; split
+    · exact ⟨ch, rfl, by assumption⟩
+    · exact ⟨0xFFFD, rfl, by decide⟩
+  have hks : keyString u k = modPrefix k.mods stringMods ++ [w] := by
     unfold keyString
     have e1 : ¬(k.keycode = KeyTab ∨ k.keycode = KeySpace ∨ k.keycode = KeyEsc ∨ k.keycode = KeyBackspace ∨ k.keycode = KeyEnter) := by
       simp only [KeyTab, KeySpace, KeyEsc, KeyBackspace, KeyEnter]; omega
@@ -296,33 +303,45 @@ theorem self_match_char (u : Uni) (hu : AsciiAgree u) (k : Key)
     have e3 : ¬ k.keycode < 0 := by omega
     have e4 : ¬ k.keycode < 0x20 := by omega
     simp only [hev, ne_eq, not_false_eq_true, if_true, e1, e2, e3, e4, if_false, hmax,
-      findKeyName_none _ _ hun, List.append_nil, ← hch]
-    simp [strOfRune, hvalid]
-  have pf := List.all_eq_true.mp prefix_facts k.mods (List.mem_range.mpr hm)
-  simp only [Bool.and_eq_true, beq_iff_eq] at pf
-  obtain ⟨⟨⟨hlast, hmask⟩, hSascii⟩, hstrip⟩ := pf
-  have hfinal : ∀ mask, stripLocks mask = stripLocks k.mods → «matches» u k ch mask = true := by
+      findKeyName_none _ _ hun, List.append_nil]
+    show _ ++ strOfRune ch = _
+    rw [hw]
+  -- whatever mask with the same non-lock bits: the event matches the written rune
+  have hfinal : ∀ mask, stripLocks mask = stripLocks k.mods → «matches» u k w mask = true := by
     intro mask hmk
     rw [matches_iff]
-    by_cases hc : ch = k.keycode
-    · exact Or.inl ⟨hc.symm, hmk⟩
-    · exact Or.inr (Or.inl ⟨by rw [htext hc]; simp [strOfRune, hvalid], hmk⟩)
+    by_cases hc : k.mods &&& ModCapsLock ≠ 0 ∧ k.text = strOfRune (u.toUpper k.keycode)
+    · -- the text is the written rune: rule 2
+      have hch : ch = u.toUpper k.keycode := by simp only [ch]; rw [if_pos hc]
+      refine Or.inr (Or.inl ⟨?_, hmk⟩)
+      rw [hc.2, ← hch, hw]
+      simp [strOfRune, hwv]
+    · -- the key code is the written rune: rule 1
+      have hch : ch = k.keycode := by simp only [ch]; rw [if_neg hc]
+      have : w = k.keycode := by
+        have := hw; rw [hch] at this; simp [strOfRune, hvk] at this; exact this.symm
+      exact Or.inl ⟨this.symm, hmk⟩
+  have pf := List.all_eq_true.mp prefix_facts k.mods (List.mem_range.mpr hm)
+  simp only [Bool.and_eq_true, Bool.or_eq_true, beq_iff_eq, Bool.not_eq_true', List.isEmpty_eq_false_iff] at pf
+  obtain ⟨⟨⟨⟨hlast, hmask⟩, hSascii⟩, hstrip⟩, hDne⟩ := pf
   rw [hks]
   generalize hp : modPrefix k.mods stringMods = p at *
   cases p with
   | nil =>
-    -- no printable modifier: the binding is the single rune
-    have : matchString u k ([] ++ [ch]) = «matches» u k ch 0 := rfl
+    have : matchString u k ([] ++ [w]) = «matches» u k w 0 := rfl
     rw [this]
     apply hfinal
     have h0 : parseMods asciiUni (splitOn 43 ([] : Str)).dropLast = 0 := by decide
     rw [h0] at hmask
     rw [← hstrip, ← hmask]
   | cons c p' =>
-    have hlong : matchString u k ((c :: p') ++ [ch]) = matchFields u k (splitOn 43 ((c :: p') ++ [ch])) := by
+    have hlong : matchString u k ((c :: p') ++ [w]) = matchFields u k (splitOn 43 ((c :: p') ++ [w])) := by
       cases p' <;> rfl
-    have hnp : (43 : Int) ∉ [ch] := by simp [Ne.symm hplus]
-    rw [hlong, splitOn_append 43 _ hnp]
+    have hDne' : (splitOn 43 (c :: p')).dropLast ≠ [] := by
+      rcases hDne with h | h
+      · cases h
+      · exact h
+    rw [hlong]
     generalize hS : splitOn 43 (c :: p') = S at *
     have hl : S.getLastD [] = [] := by
       cases S with
@@ -332,9 +351,59 @@ theorem self_match_char (u : Uni) (hu : AsciiAgree u) (k : Key)
       apply List.all_eq_true.mpr
       intro x hx
       exact List.all_eq_true.mp hSascii x (List.dropLast_subset _ hx)
-    rw [hl, List.nil_append, matchFields_single, parseMods_congr hu _ hD, hmask]
-    exact hfinal _ hstrip
+    have hSD : S = S.dropLast ++ [[]] :=
+      dropLast_concat_of_last S (by rw [← hS]; exact splitOn_ne_nil _ _) hl
+    by_cases hplus : w = 43
+    · -- the key is '+': the last two fields are empty
+      subst hplus
+      have : splitOn 43 ((c :: p') ++ [43]) = S ++ [[]] := by rw [splitOn_sep, hS]
+      rw [this, hSD]
+      have : S.dropLast ++ [[]] ++ [[]] = S.dropLast ++ [[], []] := by simp
+      rw [this, matchFields_plus u k _ hDne', parseMods_congr hu _ hD, hmask]
+      exact hfinal _ hstrip
+    · have hnp : (43 : Int) ∉ [w] := by simp [Ne.symm hplus]
+      rw [splitOn_append 43 _ hnp, hS, hl, List.nil_append, matchFields_single, parseMods_congr hu _ hD, hmask]
+      exact hfinal _ hstrip
+
+/-- Every `Key*` constant from `KeyUp` to `KeyKeyPadBegin`, and Tab / Enter / Escape / space / DEL,
+    has a name in `keyNames`. -/
+theorem all_consts_named :
+    (((List.range ((KeyKeyPadBegin - KeyUp).toNat + 1)).all fun i => keyNames.any fun e => e.1 == KeyUp + Int.ofNat i) &&
+    ([KeyTab, KeyEnter, KeyEsc, KeySpace, KeyBackspace].all fun kc => keyNames.any fun e => e.1 == kc)) = true := by
+  decide +kernel
+
+/-- **self_match.** Every pressed chord (press or repeat of a real key, 8-bit modifier mask, any
+    text / shifted / base-layout codes) matches its own `String()`. -/
+theorem self_match (u : Uni) (hu : AsciiAgree u) (k : Key) (hp : pressedChord k = true) :
+    matchString u k (keyString u k) = true := by
+  simp only [pressedChord, Bool.and_eq_true, Bool.or_eq_true, decide_eq_true_eq] at hp
+  obtain ⟨⟨hreal, hev⟩, hm⟩ := hp
+  have hev' : k.event ≠ EventRelease := by
+    rcases hev with h | h <;> rw [h] <;> decide
+  have hn := all_consts_named
+  simp only [Bool.and_eq_true] at hn
+  obtain ⟨hrange, halias⟩ := hn
+  have alias : ∀ kc ∈ [KeyTab, KeyEnter, KeyEsc, KeySpace, KeyBackspace], k.keycode = kc → matchString u k (keyString u k) = true := by
+    intro kc hkc heq
+    obtain ⟨e, he, hek⟩ := named_of_any (List.all_eq_true.mp halias kc hkc)
+    exact self_match_named u hu k e he (by rw [hek, heq]) hm hev'
+  simp only [realKey, Bool.or_eq_true, Bool.and_eq_true, decide_eq_true_eq] at hreal
+  rcases hreal with (((⟨h32, hv⟩ | h) | h) | h) | ⟨hlo, hhi⟩
+  · by_cases hs : k.keycode = 32
+    · exact alias KeySpace (by simp) hs
+    · by_cases hd : k.keycode = 127
+      · exact alias KeyBackspace (by simp) hd
+      · exact self_match_char u hu k ⟨by omega, hd, hv⟩ hm hev'
+  · exact alias KeyTab (by simp) h
+  · exact alias KeyEnter (by simp) h
+  · exact alias KeyEsc (by simp) h
+  · have hi : (k.keycode - KeyUp).toNat < (KeyKeyPadBegin - KeyUp).toNat + 1 := by omega
+    have := List.all_eq_true.mp hrange _ (List.mem_range.mpr hi)
+    obtain ⟨e, he, hek⟩ := named_of_any this
+    refine self_match_named u hu k e he ?_ hm hev'
+    rw [hek]; simp only [Int.ofNat_eq_natCast]; omega
 
 example : AsciiAgree asciiUni := ⟨fun _ _ _ => rfl, fun _ _ _ _ _ _ => rfl⟩
+example : pressedChord { keycode := 97, mods := capsBit ||| hyperBit, event := EventRepeat } = true := by decide
 
 end VaxisModel.Props.C09
